@@ -28,6 +28,7 @@
                                        in RetryError after exactly the budget (never a hang)
   * send_repeats_only_after_busy     — intended send_message: every transfer but the last was
                                        answered node-busy, at most `retry` transfers
+  * send_success_is_returned         — a transfer answered OK is the result, on whichever attempt of the budget
   * send_as_shipped_retries_other_codes — the pinned send_message violates it (witness)
 -/
 import PyIpmi.Lemmas.Retry
@@ -174,6 +175,22 @@ theorem send_repeats_only_after_busy (b : Nat) (s : Script) :
   intro pre l post he hp
   have := h2 rfl pre l post he hp
   cases l <;> simp_all [Letter.code, K, PyIpmi.Gen.Loops11.consts]
+
+/-- A transfer answered OK (completion code 0) is the result: whatever came before it and whichever
+attempt of the budget it was, `send_message` returns - it never reports a success as RetryError.
+(Both variants; found missing when a seeded change turned a success on the last permitted attempt
+into RetryError.) -/
+theorem send_success_is_returned (v : SendVariant) (b : Nat) (s : Script) (l : Letter)
+    (hm : Ev.xfer l ∈ (runSend K v b s).1.trace) (h0 : l.code = 0) :
+    (runSend K v b s).2 = .ok () := by
+  obtain ⟨ext, hx, _, _, h3, _⟩ := sendS_spec K v b ⟨s, 0, []⟩
+  have ht : (runSend K v b s).1.trace = ext := by simpa [Extends, runChunk, runSend] using hx
+  rw [ht] at hm
+  exact h3 l hm h0
+
+/-- the success may come on the last attempt the budget allows -/
+example : (runSend K .intended 3 ⟨[.nodeBusy, .nodeBusy], .completed⟩).2 = .ok () ∧
+    (runSend K .intended 3 ⟨[.nodeBusy, .nodeBusy], .completed⟩).1.trace.length = 3 := by decide
 
 /-- As shipped, a completion code other than node-busy is retried as well and finally reported as
 RetryError: three transfers for a single 0xC1 answer stream. -/
